@@ -176,6 +176,18 @@ def gen(rng, tier, info):
     for i, v in enumerate(rt):
         for nl in ((0, 1) if (tier == "thorough" or not _huge(v)) else (i % 2,)):
             cases.append({"k": 4, "nl": nl, "v": enc_val(v)})
+    # histories: several constructions in ONE process, each outcome must be that of the construction alone (a cache of
+    # validated flag words shared between Option / CommandOption / Argument: seeded change C07-i). CommandOption accepts
+    # words that are contradictory as Option bits (it validates the name preferences only)
+    contradictory = [48, 12, 640, 24, 20, 36, 136, 192, 384, 3, 2 ** 13 - 1]
+    seqs = []
+    for w in contradictory + [rng.randrange(2 ** 13) for _ in range({"quick": 60, "thorough": 600, "search": 10}[tier])]:
+        co = {"k": 2, "long": [2, "foo"], "short": [2, "f"], "al": [], "f": w}
+        op = {"k": 0, "long": [2, "foo"], "short": [2, "f"], "f": w, "d": 0}
+        ar = {"k": 1, "name": [2, "arg"], "f": w % 2 ** 11, "d": 0}
+        for order in ([co, op], [op, co], [ar, op], [op, ar], [co, op, ar, op], [op, op]):
+            seqs.append({"k": 6, "seq": order})
+    cases.extend(seqs)
     hi = {"quick": 0x20000, "thorough": 0x110000, "search": 0x800}[tier]
     for lo in range(0, hi, 0x4000):
         cases.append({"k": 5, "lo": lo, "hi": min(hi, lo + 0x4000)})
@@ -191,6 +203,8 @@ def _name(w):
 
 
 def wire(c):
+    if c["k"] == 6:
+        return [6, [wire(x) for x in c["seq"]]]
     if c["k"] == 0:
         return [0, _name(c["long"]), _name(c["short"]), c["f"], enc_d(DEFAULTS[c["d"]])]
     if c["k"] == 1:
@@ -228,6 +242,8 @@ def run_impl(c):
 
 def _run_impl(c):
     from clikit.api.args.format import Option, Argument, CommandOption
+    if c["k"] == 6:
+        return [0, [_run_impl(x) for x in c["seq"]]]
     try:
         if c["k"] == 0:
             o = Option(_pyname(c["long"]), _pyname(c["short"]), c["f"], None, DEFAULTS[c["d"]])
@@ -298,6 +314,17 @@ def _same_float(a, b):
 
 def oracle(c, o):
     """The property clauses, on the real observations."""
+    if c["k"] == 6:
+        # every construction of the history is judged by the clauses of the single construction
+        for x, ox in zip(c["seq"], o[1]):
+            r = _oracle(x, ox)
+            if r:
+                return "in-a-history:" + r
+        return None
+    return _oracle(c, o)
+
+
+def _oracle(c, o):
     if o and o[0] == "OPT-ARG-DIFFER":
         return "option-and-argument-convert-differently"
     if o[0] == -1 and o[1] != 1:
